@@ -108,6 +108,31 @@ def child_continue(item):
         shutil.rmtree(tmp, ignore_errors=True)
 
 
+def child_produce(item):
+    """Runs in a fresh interpreter: import the program module, run the history up to the restart, pickle the roots.  (With
+    BOTH ends fresh, whatever is process-global on the pickling side - counters, ids, registries - starts from the same
+    state as on the loading side, as it does when one service writes the file and another one reads it.)"""
+    tmp = tempfile.mkdtemp(prefix="labsim-c20-")
+    try:
+        with open(os.path.join(tmp, item["name"] + ".py"), "w") as f:
+            f.write(item["source"])
+        sys.path.insert(0, tmp)
+        mod = importlib.import_module(item["name"])
+        w = world_over(mod.NODES)
+        for op in item["ops"]:
+            if apply_structural(w, op) is None:
+                w.do(op)
+        try:
+            return {"pickle": base64.b64encode(pickle.dumps(mod.ROOTS, protocol=item["protocol"])).decode()}
+        except Exception as e:  # noqa: BLE001
+            return {"error": f"{type(e).__name__}: {e}"}
+    finally:
+        sys.path.remove(tmp)
+        import shutil
+
+        shutil.rmtree(tmp, ignore_errors=True)
+
+
 class C20(HistoryProperty):
     ID = "C20"
     LEVEL = "exploration"
@@ -211,7 +236,7 @@ class C20(HistoryProperty):
             for _ in range(2):
                 o = {"M": rng.choice(["cyc", "cyc", "other"]), "A": rng.choice(U.SCALARS)}
                 after.insert(rng.randrange(len(after) + 1), {"op": "evaluate", "node": d["id"], "o": o})
-        restart = {"op": "restart", "how": "fresh" if rng.random() < (0.6 if pre_restart else 0.2) else "inproc", "protocol": rng.randrange(0, 6), "hashseed": str(rng.randrange(1, 10**6))}
+        restart = {"op": "restart", "how": rng.choice(["fresh", "fresh2"]) if rng.random() < (0.6 if pre_restart else 0.2) else "inproc", "protocol": rng.randrange(0, 6), "hashseed": str(rng.randrange(1, 10**6))}
         return {"cfg": cfg, "spec": spec, "form": form, "ops": pre + ops[:r] + pre_restart + [restart] + after}
 
     def run_case(self, case):
@@ -244,6 +269,15 @@ class C20(HistoryProperty):
                         else:
                             pending_fresh = {"name": name, "source": source, "pickle": base64.b64encode(data).decode(), "ops": case["ops"][i + 1:],
                                              "hashseed": op["hashseed"], "at": i}
+                            if op["how"] == "fresh2":
+                                # the pickle is WRITTEN by a fresh interpreter too (same module, same history so far)
+                                made = self._fresh({"produce": True, "name": name, "source": source, "protocol": op["protocol"], "hashseed": op["hashseed"],
+                                                    "ops": [{k: v for k, v in o.items() if k != "_ref"} for o in case["ops"][:i]]})
+                                res.bump("pickles_written_by_a_fresh_interpreter")
+                                if "error" in made:
+                                    res.violate("pickling-failed", op_index=i, protocol=op["protocol"], form=case["form"], where="fresh interpreter", error=made["error"][:300])
+                                    break
+                                pending_fresh["pickle"] = made["pickle"]
                         continue
                     st = apply_structural(ref, op)
                     if st is not None:
@@ -351,6 +385,9 @@ class C20(HistoryProperty):
         if case["form"] == "explicit":
             pass
         r = [op for op in case["ops"] if op["op"] == "restart"][0]
-        if r["how"] == "fresh":
+        if r["how"] == "fresh2":
+            ops = [dict(op, how="fresh") if op["op"] == "restart" else op for op in case["ops"]]
+            yield dict(case, ops=ops)
+        if r["how"] in ("fresh", "fresh2"):
             ops = [dict(op, how="inproc") if op["op"] == "restart" else op for op in case["ops"]]
             yield dict(case, ops=ops)
